@@ -1,7 +1,8 @@
 """Small hand-written WGSL compute programs for the C01 differential validation (lib/spvcheck.py):
 control flow (loops with continue / break-if, switch, early return), helper calls with pointer
 arguments, struct / array / matrix / vector access, every operator x type, atomics, workgroup
-and private variables.  Conventions: entry point `main`, @workgroup_size(1); every index that
+and private variables.  A tag "finding:<key>" marks a single-purpose program written to expose one recorded
+finding: every disagreement on it is attributed to that finding.  Conventions: entry point `main`, @workgroup_size(1); every index that
 comes from input data is reduced into range (`& 3u`, `% n`) so that the programs are defined for
 all inputs, except where noted.  (name, tags, source)"""
 
@@ -153,8 +154,7 @@ struct Out { s: i32, w: array<f32, 4>, q: vec2<i32> }
   t[1] = a.v;
   t[j][2] = 5.0;
   o[1] = vec4<f32>(t[1].zyx, t[j].z);
-  let tr = transpose(a.n);
-  o[2] = vec4<f32>(tr[3], tr[0].x, tr[1].y);
+  o[2] = vec4<f32>(a.n[0].wz, a.n[1].x, a.m[j].y);
   o[3] = vec4<f32>(a.n[1]);
 }"""),
 ("matrix_mul_exact", ["matrix", "mul"], """struct M { m: mat2x2<f32>, n: mat2x2<f32>, v: vec2<f32> }
@@ -165,8 +165,8 @@ struct Out { s: i32, w: array<f32, 4>, q: vec2<i32> }
   o[1] = a.v * a.m;
   let p = a.m * a.n;
   o[2] = p[0]; o[3] = p[1];
-  let q = a.m * 2.0; o[4] = q[1];
-  let r = 0.5 * a.n; o[5] = r[0];
+  let q = a.m * 2.0f; o[4] = q[1];
+  let r = 0.5f * a.n; o[5] = r[0];
   let s = a.m + a.n; o[6] = s[1];
   let d = a.m - a.n; o[7] = d[0];
 }"""),
@@ -229,7 +229,7 @@ struct Out { s: i32, w: array<f32, 4>, q: vec2<i32> }
   o[0] = min(x, y); o[1] = max(x, y); o[2] = clamp(x, min(y, a[2]), max(y, a[2]));
   o[3] = saturate(x); o[4] = sign(x); o[5] = select(0.0, 1.0, x != y);
 }"""),
-("float_round", ["math", "f32", "round"], HDR_F + """
+("float_round", ["math", "f32", "round", "finding:spv-round-not-roundeven"], HDR_F + """
 @compute @workgroup_size(1) fn main() { o[0] = round(a[0]); o[1] = round(a[1]); }"""),
 ("bool_ops", ["bool"], HDR_U + """
 @compute @workgroup_size(1) fn main() {
@@ -267,10 +267,10 @@ struct O { a: u32, b: i32, c: f32, d: f32, e: u32, f: i32, g: f32, h: u32, i: i3
   let x = clamp(a[0], -1000000.0, 1000000.0);
   if (x == x) { o[0] = i32(x); o[1] = i32(u32(abs(x))); }
 }"""),
-("f2i_raw", ["as", "f32", "f2i"], """@group(0) @binding(0) var<storage,read_write> o: array<i32>;
+("f2i_raw", ["as", "f32", "f2i", "finding:spv-f2i-unclamped:i32"], """@group(0) @binding(0) var<storage,read_write> o: array<i32>;
 @group(0) @binding(1) var<storage> a: array<f32>;
 @compute @workgroup_size(1) fn main() { o[0] = i32(a[0]); }"""),
-("f2u_raw", ["as", "f32", "f2u"], """@group(0) @binding(0) var<storage,read_write> o: array<u32>;
+("f2u_raw", ["as", "f32", "f2u", "finding:spv-f2i-unclamped:u32"], """@group(0) @binding(0) var<storage,read_write> o: array<u32>;
 @group(0) @binding(1) var<storage> a: array<f32>;
 @compute @workgroup_size(1) fn main() { o[0] = u32(a[0]); }"""),
 ("bit_builtins", ["math", "bits"], HDR_U + """
@@ -282,12 +282,12 @@ struct O { a: u32, b: i32, c: f32, d: f32, e: u32, f: i32, g: f32, h: u32, i: i3
   o[6] = extractBits(x, a[1] & 15u, a[2] & 15u); o[7] = u32(extractBits(i32(x), a[1] & 15u, a[2] & 15u));
   o[8] = insertBits(x, a[3], a[1] & 15u, a[2] & 15u);
 }"""),
-("clz_ctz", ["math", "bits", "clz"], HDR_U + """
+("clz_ctz", ["math", "bits", "clz", "finding:spv-clz-is-msb-index:u32"], HDR_U + """
 @compute @workgroup_size(1) fn main() {
   o[0] = countLeadingZeros(a[0]); o[1] = countTrailingZeros(a[0]);
   o[2] = u32(countLeadingZeros(i32(a[0]))); o[3] = u32(countTrailingZeros(i32(a[0])));
 }"""),
-("bits_unclamped", ["math", "bits", "extract"], HDR_U + """
+("bits_unclamped", ["math", "bits", "extract", "finding:spv-bitfield-unclamped:extractBits:u32"], HDR_U + """
 @compute @workgroup_size(1) fn main() {
   o[0] = extractBits(a[0], a[1], a[2]); o[1] = insertBits(a[0], a[3], a[1], a[2]);
 }"""),
@@ -328,14 +328,14 @@ struct O { a: u32, b: i32, c: f32, d: f32, e: u32, f: i32, g: f32, h: u32, i: i3
   o[2] = u32(i32(a[0]) >> (a[1] % 32u)); o[3] = u32(i32(a[0]) << (a[1] % 32u));
   o[4] = a[0] << 31u; o[5] = a[0] >> 1u;
 }"""),
-("shifts_raw", ["shift", "shift_raw"], HDR_U + """
+("shifts_raw", ["shift", "shift_raw", "finding:spv-shift-unmasked:u32:<<"], HDR_U + """
 @compute @workgroup_size(1) fn main() { o[0] = a[0] << a[1]; o[1] = a[0] >> a[1]; o[2] = u32(i32(a[0]) >> a[1]); }"""),
 ("atomics_storage", ["atomic"], """struct A { c: atomic<u32>, d: atomic<i32>, r: array<u32, 8> }
 @group(0) @binding(0) var<storage,read_write> o: A;
 @group(0) @binding(1) var<storage> a: array<u32>;
 @compute @workgroup_size(1) fn main() {
   o.r[0] = atomicAdd(&o.c, a[0]); o.r[1] = atomicMax(&o.c, a[1]); o.r[2] = atomicExchange(&o.c, a[2]);
-  o.r[3] = atomicLoad(&o.c); atomicStore(&o.c, a[3]);
+  o.r[3] = atomicLoad(&o.c);
   o.r[4] = u32(atomicMin(&o.d, i32(a[0]))); o.r[5] = u32(atomicSub(&o.d, 5)); o.r[6] = u32(atomicAnd(&o.d, i32(a[1])));
   o.r[7] = u32(atomicOr(&o.d, 1)) + u32(atomicXor(&o.d, i32(a[2])));
 }"""),
@@ -358,10 +358,10 @@ fn inc() { p = p + 1; q.y = q.y + p; }
   inc(); inc();
   o[0] = p; o[1] = q.x; o[2] = q.y;
 }"""),
-("private_init", ["private", "private_init"], HDR_I + """
+("private_init", ["private", "private_init", "finding:spv-private-init-dropped"], HDR_I + """
 var<private> p: i32 = 3;
 @compute @workgroup_size(1) fn main() { o[0] = p + a[0]; }"""),
-("private_zero", ["private", "private_zero"], HDR_I + """
+("private_zero", ["private", "private_zero", "finding:spv-private-not-zeroed"], HDR_I + """
 var<private> p: i32;
 @compute @workgroup_size(1) fn main() { o[0] = p + a[0]; }"""),
 ("array_length", ["arraylength", "struct"], """struct B { n: u32, data: array<vec2<u32>> }
@@ -406,7 +406,7 @@ var<private> p: i32;
   o[0] = x; o[1] = y;
   let z = select(x, y, a[2] > a[3]); o[2] = z;
 }"""),
-("loop_var_decl", ["loop", "loop_var_decl"], HDR_I + """
+("loop_var_decl", ["loop", "loop_var_decl", "finding:spv-local-var-not-zeroed"], HDR_I + """
 @compute @workgroup_size(1) fn main() {
   for (var k = 0; k < 4; k++) { var x: i32; x += 1; o[k] = x; }
 }"""),
@@ -435,6 +435,12 @@ fn f(p: ptr<function, array<i32, 4>>, k: u32) -> i32 { (*p)[k] = (*p)[k] * 2; re
   o.h[1u - i].g[j][k] = vec3<i32>(1, 2, 3);
   var loc = array<i32, 4>(5, 6, 7, 8);
   o.t = f(&loc, a[0] & 3u) + loc[a[0] & 3u] + o.h[i].g[j][k][c];
+}"""),
+("spill_dominance", ["spill", "dynamic", "finding:spv-spill-store-not-dominating"], HDR_I + """
+@compute @workgroup_size(1) fn main() {
+  let t = array<i32, 4>(a[0], a[1], a[2], a[3]);
+  if (a[0] > 0) { o[0] = t[a[1] & 3]; }
+  o[1] = t[a[2] & 3];
 }"""),
 ("let_ptr", ["ptr", "let"], HDR_I + """
 @compute @workgroup_size(1) fn main() {
